@@ -19,7 +19,7 @@ RULE = ("seeded random expression trees (depth <= 5) over the documented grammar
         "(d/dt * x and x' notations); all must equal the independent AST evaluation (float64, cross-checked with 40-digit mpmath; "
         "ill-conditioned trees discarded); non-trivial = tree has >= 4 nodes; distinct = distinct tree hash")
 DECIDING = ['eval_node_values', 'generated_function_values', 'spellings_compared', 'index_expressions', 'ddt_notation', 'prime_notation',
-            'hostile_names', 'rewritten_variable_values', 'derived_label_neighbour_values', 'index_expressions_generated', 'literal_equations']
+            'hostile_names', 'rewritten_variable_values', 'derived_label_neighbour_values', 'index_expressions_generated', 'literal_equations', 'shared_negated_sums']
 ASSUMPTIONS = ['sigmoid is the logistic function, maxi/mini are element-wise maximum/minimum', 'argument domains are kept safe by construction',
                'ill-conditioned expressions (float64 vs mpmath differ by more than 1e-11 relative) are discarded']
 CASE_TIMEOUT = 240
@@ -71,6 +71,24 @@ def gen_expr(rnd, names, depth, flags):
         if r < 0.9:
             return lit(rnd)
         return ('const', rnd.choice(['pi', 'E']))
+    if depth >= 2 and len(names) >= 2 and rnd.random() < 0.07:
+        # a repeated sub-expression (a sum of variables) that occurs once negated and once more inside another factor or argument
+        terms = [('var', n_) if rnd.random() < 0.6 else ('mul', lit(rnd), ('var', n_)) for n_ in rnd.sample(names, rnd.randint(2, min(3, len(names))))]
+        S = terms[0]
+        for t_ in terms[1:]:
+            S = ('add', S, t_)
+        other = gen_expr(rnd, names, depth - 2, flags)
+        flags['shared_negated_sum'] = True
+        shape = rnd.choice(['neg_times_sum', 'sum_times_neg', 'neg_times_call', 'zero_minus', 'neg_over_square'])
+        if shape == 'neg_times_sum':
+            return ('mul', ('neg', S), ('add', other, S))
+        if shape == 'sum_times_neg':
+            return ('mul', ('add', other, S), ('neg', S))
+        if shape == 'neg_times_call':
+            return ('mul', ('neg', S), ('call', rnd.choice(['sin', 'cos', 'tanh']), S))
+        if shape == 'zero_minus':
+            return ('mul', ('sub', ('num', 0.0), S), ('add', other, S))
+        return ('div', ('neg', S), ('add', ('num', 2.0), ('pow', S, 2)))
     r = rnd.random()
     if r < 0.22:
         return ('add', gen_expr(rnd, names, depth - 1, flags), gen_expr(rnd, names, depth - 1, flags))
@@ -290,6 +308,7 @@ def run_case(case, ctx):
             for _ in range(3000):
                 flags.pop('nested', None)
                 flags.pop('literal_call', None)
+                flags.pop('shared_negated_sum', None)
                 e = gen_expr(rnd, names, rnd.randint(2, 5), flags)
                 try:
                     nest = E.has_direct_nesting(e) or nesting_after_simplify(e)
@@ -313,6 +332,8 @@ def run_case(case, ctx):
             if not math.isfinite(v64) or abs(v64 - vmp) > 1e-11 * max(1.0, abs(vmp)) or abs(vmp) > 1e8:
                 mech['discarded'] = mech.get('discarded', 0) + 1
                 continue
+            if flags.get('shared_negated_sum'):
+                mech['shared_negated_sums'] = mech.get('shared_negated_sums', 0) + 1
             if any(n in ('r_in0', 'm_in2', 'x_v1', 'x_v2', 'weight') for n in E.variables(e)):
                 mech['hostile_names'] = mech.get('hostile_names', 0) + 1
             sp = spellings(e, rnd)
